@@ -1152,11 +1152,17 @@ func azDeployments(c *suiteCtx) {
 				b.apply(v.raw)
 			}
 			r2 := e.do(reqSpec{Target: "/app/again", Cookie: b.cookieHeader()})
+			if os.Getenv("VERIF_DEBUG") != "" {
+				fmt.Fprintln(os.Stderr, "DEBUG grows", target, v.Status, r2.Status, single, setCookieNames(v), len(b.jar))
+			}
 			c.casen("az|refresh-grows-and-fails|"+target, fmt.Sprintf("%d/%d", v.Status, r2.Status))
 			c.count("az:refresh-grows-and-fails")
 			in := map[string]interface{}{"target": target, "status": v.Status, "session_was_one_cookie": single, "groups_after_refresh": 260, "set_cookie_names": setCookieNames(v), "replay_status": r2.Status}
 			if len(v.Hits) > 0 || v.Status == 200 || v.Status == 202 {
 				c.violation("C08", "a session whose refresh (in this very request) left it outside allowed-groups was served", in)
+			} else if hasAnySessionCookie(b, e.opts.Cookie.Name) {
+				in["cookies_left_in_the_browser"] = jarNamesOf(b)
+				c.violation("C08", "a request whose refresh left the session outside allowed-groups was refused, but its cookie is NOT cleared: after the response the browser still holds session cookies (the parts the refresh wrote under names the browser had not presented were neither taken back nor deleted)", in)
 			} else if len(r2.Hits) > 0 {
 				c.violation("C08", "a request whose refresh left the session outside allowed-groups was refused, but the response leaves the browser with a complete, valid session (the refreshed session's cookie parts were set and not taken back): the next request is served", in)
 			}
